@@ -315,7 +315,10 @@ def range_agreement(ctx, facts, cfg):
         if fn is None:
             continue
         p = fn.path
-        body = fn.body
+        # a private helper that only builds the range (`self.original_range()`) is read in place
+        body = core.inlined_fn(facts, p, lambda g, t: (not g.reachable and not g.impl_trait and g.kind != 'Closure'
+                                                       and (g.output or '').startswith('std::ops::Range<')
+                                                       and g.impl_self_adt == fn.impl_self_adt and not list(g.body.calls())), tag='c04c').body
         calls = [(b, t) for b, t in body.calls() if t['callee'].get('path') == RL.fn.get('store.undo')]
         if len(calls) != 1:
             ctx.violation(R, 'no-delegate', '%s does not call Shards::undo_last_chunk_encoding exactly once' % p, site=fn.span, fn=p, cfg=cfg)
